@@ -16,7 +16,7 @@ for ID in "$@"; do
   P=${ID%%-*}
   WT=/tmp/wt/retest-$ID
   git -C /repo worktree add -q --detach $WT HEAD || continue
-  git -C $WT apply /verif/seeded/$ID/patch.diff || { echo "$ID patch does not apply"; git -C /repo worktree remove --force $WT; continue; }
+  (git -C $WT apply /verif/seeded/$ID/patch.diff 2>/dev/null || (cd $WT && patch -p1 -F3 -s --no-backup-if-mismatch < /verif/seeded/$ID/patch.diff >/dev/null 2>&1)) || { echo "$ID patch does not apply"; git -C /repo worktree remove --force $WT; continue; }
   cp evidence/$P.json /tmp/wt/evidence-$P.bak 2>/dev/null
   o=$(VERIF_REPO=$WT timeout 3000 ./check $P --tier quick 2>&1 | grep -E "^(VIOLATION|OK)" | head -3 | tr '\n' ' ')
   cp /tmp/wt/evidence-$P.bak evidence/$P.json 2>/dev/null
